@@ -117,11 +117,29 @@ def systematic(flat_docs):
     return out
 
 
+def reuse_family():
+    """context-free expressions in which one string is converted to a number, dropped, and another string is converted afterwards
+    (value objects recycled inside one evaluation must not remember the previous value)"""
+    out = []
+    pool = [lit("1"), lit("0"), lit("tu"), lit("2.5"), num(1), fn("string", num(2)), fn("substring-after", lit("a7"), lit("a"))]
+    for a in pool:
+        for b in pool:
+            for c in pool:
+                for o1 in ["=", "<", ">"]:
+                    for o2 in ["<=", "=", "+"]:
+                        out.append(bin_(o2, bin_(o1, a, b), c))
+                out.append(bin_("+", bin_("+", a, b), c))
+                out.append(fn("concat", fn("string", fn("number", a)), lit("|"), fn("string", fn("number", b)), lit("|"), fn("string", fn("number", c))))
+    return out
+
+
 def build_cases(rng, tier):
     quick = tier == "quick"
     docs = make_docs(rng, 8 if quick else 40)
     flats = [xdm.flatten(t, ID_ATTRS) for t in docs]
     cases = []
+    for e in reuse_family():
+        cases.append((1, 1, 1, 1, e, {}))
     sysx = systematic(flats)
     nsys_docs = 2 if quick else 4
     for e in sysx:
@@ -342,7 +360,8 @@ def run(res, tier, seed):
     res.cov["traces_validated_against_impl"] = len(events) - len(rejects) - st["dropped"]
     res.cov["distinct_nontrivial"] = len({vlib.canon_hash([e["text"], e["doc"], e["ctx"], e["pos"], e["size"], e["vars"]]) for e in events if nontrivial(e)})
     res.cov["rule"] = ("systematic families (12 axes x node tests x positional predicates from sampled context nodes; comparison matrix of all "
-                       "type pairs x 6 operators; arithmetic precedence/associativity pairs; core-function tables) + seeded random typed "
+                       "type pairs x 6 operators; arithmetic precedence/associativity pairs; core-function tables; the value-object reuse family "
+                       "(a op b) op c over string/number literals and computed strings) + seeded random typed "
                        "expressions of depth 1-3 over %d documents; non-trivial = result is not an error, empty node-set, false, '' or NaN; "
                        "distinct by (text, document, context, position, size, variables)" % len(docs))
     for ev in events[::max(1, len(events) // 4)][:4]:
